@@ -1,5 +1,6 @@
-/-! Scratch prototype: the streaming machine of `Pp::run_internal` vs a two-phase
-    parse → eval → render specification, parametric in the directive semantics. -/
+/-! The streaming machine of `Pp::run_internal` (pp/mod.rs:59-144: current directive, tail line,
+    pending-newline flag) and the README-shaped two-phase specification parse → eval → render,
+    both parametric in the directive semantics `Sem` (DESIGN 4.2). -/
 namespace Refine
 
 abbrev Str := List Char
@@ -10,7 +11,7 @@ structure Sem (D σ : Type) where
   badStart : D → Bool                       -- multi-line capable ∧ empty prefix
   addLine  : D → Str → Option D
   exec     : σ → D → Option (σ × Option Str)  -- none = error; some (_, none) = no output / diverted to tag
-  text     : σ → Str → σ × Str               -- tag injection
+  text     : σ → Str → σ × Option Str        -- an ordinary line: tag injection; `none` = not written (dependency-collecting pass)
   le       : Str
 
 variable {D σ : Type}
@@ -31,8 +32,9 @@ def feedFresh (S : Sem D σ) (m : MSt D σ) (line : Str) : Option (MSt D σ) :=
   match S.detect line with
   | some d => if S.badStart d then none else some { m with cur := some d }
   | none =>
-    let (st', l') := S.text m.st line
-    some (emit S { m with st := st' } l' false)
+    match S.text m.st line with
+    | (st', some l') => some (emit S { m with st := st' } l' false)
+    | (st', none) => some { m with st := st' }
 
 def execD (S : Sem D σ) (m : MSt D σ) (d : D) (hasTail : Bool) : Option (MSt D σ) :=
   match S.exec m.st d with
@@ -100,8 +102,9 @@ structure Chunk where
 def eval (S : Sem D σ) : σ → List (Block D) → Option (σ × List Chunk)
   | s, [] => some (s, [])
   | s, .text l :: bs =>
-    let (s', l') := S.text s l
-    (eval S s' bs).map (fun (s'', cs) => (s'', ⟨l', true⟩ :: cs))
+    match S.text s l with
+    | (s', some l') => (eval S s' bs).map (fun (s'', cs) => (s'', ⟨l', true⟩ :: cs))
+    | (s', none) => eval S s' bs
   | s, .dir d atEof :: bs =>
     match S.exec s d with
     | none => none
